@@ -989,7 +989,7 @@ class LoopUnroller(ast.NodeTransformer):
     attributes, constants or unary operations of such (no call is duplicated or
     re-ordered) and whose targets are not rebound in the body."""
 
-    MAX_ITEMS = 4
+    MAX_ITEMS = 12
 
     def __init__(self):
         self.count = 0
@@ -1413,3 +1413,122 @@ def default_then_override(tree: ast.Module) -> int:
     if d.count:
         ast.fix_missing_locations(tree)
     return d.count
+
+
+# ---------------------------------------------------------------- literal call forms
+class LiteralForms(ast.NodeTransformer):
+    """source normal forms of constructions that only re-spell a literal:
+
+    * `dict(a=x, b=y)` (keywords only, `dict` not rebound)      ->  `{"a": x, "b": y}`
+    * `f(.., **kw)` where the local `kw` is bound once to a dict display with
+      constant string keys and simple values, never touched otherwise and used only
+      there                                                       ->  `f(.., a=x, b=y)`
+    * `setattr(o, "name", v)` as a statement, constant identifier ->  `o.name = v`
+    * `getattr(o, "name")` (two arguments, constant identifier)  ->  `o.name`
+    """
+
+    def __init__(self):
+        self.count = 0
+        self.tables: List[Dict[str, ast.Dict]] = []
+        self.drop: List[set] = []
+
+    def _function(self, node):
+        stores: Dict[str, int] = {}
+        loads: Dict[str, int] = {}
+        star_uses: Dict[str, int] = {}
+        vals: Dict[str, ast.AST] = {}
+        for n in _own_walk(node):
+            if isinstance(n, ast.Name):
+                if isinstance(n.ctx, (ast.Store, ast.Del)):
+                    stores[n.id] = stores.get(n.id, 0) + 1
+                else:
+                    loads[n.id] = loads.get(n.id, 0) + 1
+            if isinstance(n, ast.Assign) and len(n.targets) == 1 and isinstance(n.targets[0], ast.Name):
+                v = _as_dict_display(n.value)
+                if v is not None:
+                    vals[n.targets[0].id] = v
+            if isinstance(n, ast.Call):
+                for k in n.keywords:
+                    if k.arg is None and isinstance(k.value, ast.Name):
+                        star_uses[k.value.id] = star_uses.get(k.value.id, 0) + 1
+        params = {a.arg for a in node.args.posonlyargs + node.args.args + node.args.kwonlyargs}
+        table = {}
+        for k, v in vals.items():
+            if stores.get(k) == 1 and loads.get(k, 0) == 1 and star_uses.get(k, 0) == 1 and k not in params:
+                # the values must still mean the same at the call: names not rebound in the function after
+                names = {x.id for e in v.values for x in ast.walk(e) if isinstance(x, ast.Name)}
+                if all(stores.get(nm, 0) == 0 or nm in params and stores.get(nm, 0) == 0 for nm in names):
+                    table[k] = v
+        self.tables.append(table)
+        self.drop.append(set())
+        self.generic_visit(node)
+        dropped = self.drop.pop()
+        self.tables.pop()
+        if dropped:
+            _remove_bindings(node, dropped)
+        return node
+
+    visit_FunctionDef = _function
+    visit_AsyncFunctionDef = _function
+
+    def visit_Call(self, node: ast.Call):
+        self.generic_visit(node)
+        if isinstance(node.func, ast.Name) and node.func.id == "dict" and not node.args and node.keywords and all(k.arg is not None for k in node.keywords):
+            self.count += 1
+            return ast.copy_location(ast.Dict(keys=[ast.Constant(k.arg) for k in node.keywords], values=[k.value for k in node.keywords]), node)
+        if isinstance(node.func, ast.Name) and node.func.id == "getattr" and len(node.args) == 2 and not node.keywords and isinstance(node.args[1], ast.Constant) and isinstance(node.args[1].value, str) and node.args[1].value.isidentifier():
+            self.count += 1
+            return ast.copy_location(ast.Attribute(value=node.args[0], attr=node.args[1].value, ctx=ast.Load()), node)
+        if self.tables and any(k.arg is None and isinstance(k.value, ast.Name) and k.value.id in self.tables[-1] for k in node.keywords):
+            kws = []
+            for k in node.keywords:
+                if k.arg is None and isinstance(k.value, ast.Name) and k.value.id in self.tables[-1]:
+                    d = self.tables[-1][k.value.id]
+                    given = {x.arg for x in node.keywords if x.arg is not None}
+                    if any(kk.value in given for kk in d.keys):
+                        return node
+                    for kk, vv in zip(d.keys, d.values):
+                        kws.append(ast.keyword(arg=kk.value, value=clone_ast(vv)))
+                    self.drop[-1].add(k.value.id)
+                else:
+                    kws.append(k)
+            node.keywords = kws
+            self.count += 1
+        return node
+
+    def visit_Expr(self, node: ast.Expr):
+        self.generic_visit(node)
+        c = node.value
+        if isinstance(c, ast.Call) and isinstance(c.func, ast.Name) and c.func.id == "setattr" and len(c.args) == 3 and not c.keywords and isinstance(c.args[1], ast.Constant) and isinstance(c.args[1].value, str) and c.args[1].value.isidentifier():
+            self.count += 1
+            new = ast.Assign(targets=[ast.Attribute(value=c.args[0], attr=c.args[1].value, ctx=ast.Store())], value=c.args[2])
+            return ast.copy_location(new, node)
+        return node
+
+
+def _as_dict_display(v: ast.AST) -> Optional[ast.Dict]:
+    """a dict display / dict(k=v) with constant identifier keys and simple values"""
+    if isinstance(v, ast.Call) and isinstance(v.func, ast.Name) and v.func.id == "dict" and not v.args and v.keywords and all(k.arg is not None for k in v.keywords):
+        v = ast.Dict(keys=[ast.Constant(k.arg) for k in v.keywords], values=[k.value for k in v.keywords])
+    if isinstance(v, ast.Dict) and v.keys and all(isinstance(k, ast.Constant) and isinstance(k.value, str) and k.value.isidentifier() for k in v.keys) and all(_pure_simple(e) for e in v.values):
+        return v
+    return None
+
+
+def _remove_bindings(fn: ast.AST, names: set) -> None:
+    """drop `name = <display>` statements of locals that were spliced into their only use"""
+    for holder in ast.walk(fn):
+        for fld in ("body", "orelse", "finalbody"):
+            seq = getattr(holder, fld, None)
+            if isinstance(seq, list):
+                new = [s for s in seq if not (isinstance(s, ast.Assign) and len(s.targets) == 1 and isinstance(s.targets[0], ast.Name) and s.targets[0].id in names)]
+                if len(new) != len(seq):
+                    seq[:] = new or [ast.Pass()]
+
+
+def literal_forms(tree: ast.Module) -> int:
+    t = LiteralForms()
+    t.visit(tree)
+    if t.count:
+        ast.fix_missing_locations(tree)
+    return t.count
